@@ -61,6 +61,21 @@ impl<E: Edge, N: InnerNode<E>> DiagramRules<E, N, ZBDDTerminal> for ZBDDRules {
     fn cofactors(_tag: E::Tag, node: &N) -> Self::Cofactors<'_> {
         node.children()
     }
+
+    #[inline]
+    fn cofactor_skipped<M: Manager<Edge = E, InnerNode = N, Terminal = ZBDDTerminal>>(
+        manager: &M,
+        edge: &E,
+        n: usize,
+    ) -> E {
+        // Zero-suppression: a skipped variable is not contained in any set of
+        // the family, so the `hi` cofactor (child 0) is the empty family.
+        if n == 0 {
+            manager.get_terminal(ZBDDTerminal::Empty).unwrap()
+        } else {
+            manager.clone_edge(edge)
+        }
+    }
 }
 
 #[inline(always)]
